@@ -3,24 +3,32 @@
 One case = one resolver configuration, a list of resolve() calls sharing the resolver (and
 its cache), a finite script of per-query outcomes followed by a tail outcome repeated
 forever, and a controlled clock (exact rational seconds, integer milliseconds).  The case is
-run through dns.resolver.Resolver.resolve and dns.asyncresolver.Resolver.resolve (asyncio)
-with scripted dns.nameserver.Nameserver subclasses; the observation is, per resolve call, the
-trace of (server, tcp, backoff, timeout, question name, script index) and the final result.
-The same case is evaluated by coq/Model/ResolM.v (`ResolM.run`) inside Coq.
+run through dns.resolver.Resolver.resolve and dns.asyncresolver.Resolver.resolve (asyncio) with
+real Do53Nameserver / DoHNameserver objects over scripted dns.query / dns.asyncquery transports
+and scripted dns.nameserver.Nameserver subclasses; the observation is, per resolve call, the
+trace of (server, tcp, backoff, timeout, question name, script index), the final result, the
+clock, and cache probes.  The same case is evaluated by coq/Model/ResolM.v (`ResolM.run`) in Coq.
 
-Case layout (nested ints / bytes / lists / None):
+Explicit case layout (nested ints / bytes / lists / None) as the generators build it:
   case   = [rcfg, [resolution...], [outcome...], tail_outcome]
-  rcfg   = [[ [id, always_max_size] ...], timeout_ms, lifetime_ms, retry_servfail, cache_kind,
-            use_search_by_default, [search name...], domain name, ndots | None]
+  rcfg   = [[ [id, kind] ...], timeout_ms, lifetime_ms, retry_servfail, cache_kind (0 none, 1 Cache,
+            2 LRUCache), use_search_by_default, [search name...], domain name, ndots | None]
+            server kind: 0 address string (Do53Nameserver), 1 https URL (DoHNameserver, always max
+            size), 2 scripted Nameserver, 3 scripted always-max-size Nameserver
   resolution = [qname, rdtype, rdclass, tcp, raise_on_no_answer, lifetime_ms | None,
                 search | None, advance_ms, preload]   (preload=1: not a resolve() call - the user stores
                 Answer(qname, rdtype, rdclass, <next scripted reply>) with resolver.cache.put)
   outcome = [duration_ms, reply]
-  reply   = exception class index (int)  |  [qr, rcode, nquestions, [rr...], [rr...]]
+  reply   = exception class index into EXC (int)  |  [qr, rcode, nquestions, [rr...], [rr...]]
   rr      = [owner | None (= question name), rdclass, rdtype, ttl, data]
-            data = target name | None (= question name) for CNAME/NS-like name data (type 5),
-                   SOA minimum (type 6), small int otherwise
+            data = target name | None (= question name) for CNAME (type 5), SOA minimum (type 6),
+                   small int otherwise
   name    = list of labels (bytes)
+What crosses to Coq is the interned form `intern(case)` = [name table] + case with every name
+replaced by its index; names in observations are table indices, pairs of indices (a concatenation,
+i.e. a search-list candidate) or explicit labels (`enc_name`).
+Observation = [flavour] when sync and asyncio agree, else [sync, asyncio];
+  flavour = [[ [trace, final, clock_ms] per resolution ], [cache probes per resolution], anomalies]
 """
 import ast
 import asyncio
